@@ -216,7 +216,7 @@ func (in *Interp) runPath(h *ssa.Function, prefix []Decision, sample bool) (res 
 		res.Tags = in.tags
 		res.Fns = map[string]int{}
 		for f, n := range in.fnSeen {
-			if f.Pkg != nil && in.ld.isModulePkg(f.Pkg.Pkg) && !strings.HasPrefix(f.Name(), "Verif") && !strings.HasPrefix(f.Name(), "vf") {
+			if f.Pkg != nil && in.ld.isModulePkg(f.Pkg.Pkg) && !isHarnessFn(f) {
 				res.Fns[f.String()] += n
 			}
 		}
@@ -493,4 +493,16 @@ func Explore(ld *Loaded, cfg *Config) *RunResult {
 	}
 	rr.Wall = time.Since(t0)
 	return rr
+}
+
+// isHarnessFn tells whether f belongs to the injected harness files rather than to /repo.
+func isHarnessFn(f *ssa.Function) bool {
+	for g := f; g != nil; g = g.Parent() {
+		if g.Pos().IsValid() {
+			name := g.Prog.Fset.Position(g.Pos()).Filename
+			return strings.Contains(name, "zz_verif_")
+		}
+	}
+	n := strings.ToLower(f.Name())
+	return strings.HasPrefix(n, "vf") || strings.HasPrefix(n, "verif") || strings.Contains(strings.ToLower(f.String()), ".vf")
 }
